@@ -74,7 +74,7 @@ def trivial_num(line):
 # ------------------------------------------------------------------------------------------
 FOLD_OPS = ["+", "-", "*", "/", "max", "min"]
 CHAIN_OPS = ["=", "<", "<=", ">", ">="]
-VARS = ["na", "nb", "nc", "nd", "ne"]
+VARS = ["na", "nb", "nc", "nd", "ne", "nf", "ng", "nh", "ni", "nj", "nk", "nl", "nm"]
 
 
 def hexs(s):
@@ -101,7 +101,7 @@ def nary_cases(rng, n, per_case=100):
         if k % per_case == 0:
             lines = ["NEW 0 std"]
             cases.append({"lines": lines})
-        arity = rng.choice([3, 3, 3, 4, 5])
+        arity = rng.choice([3, 3, 3, 4, 5, 8, 9, 10, 13])
         pool = rng.choice([g, small, small])
         ops = [rng.choice(pool) if rng.random() < 0.7 else rand_num(rng) for _ in range(arity)]
         if rng.random() < 0.3:
